@@ -724,6 +724,7 @@ SEED = 4321  # the same seed before every model call: uninitialised variational 
 CHILDREN_QUICK = ("exact/rbf_scale_constant", "exact/priors_gamma_normal", "multitask/kronecker_rank1", "sgpr/inducing_point_kernel", "kiss/fixed_grid_1d",
                   "grid/grid_kernel_1d", "model_list/two_exact", "svgp/whitened/cholesky", "svgp/unwhitened/cholesky", "multitask_svgp/lmc/cholesky")
 SAVE_POINTS = ("fresh", "trained", "predicted", "predicted_with_grad", "last")
+CHILD_LEVEL_LOADS = False
 MECHS = ("state_dict_fresh", "state_dict_fresh_alt", "state_dict_used", "state_dict_used_holder", "state_dict_used_children", "pickle", "deepcopy")
 
 
@@ -823,6 +824,12 @@ def run(tier="quick", seed=0, only=None):
                 _, child_blobs = guarded(f"{sname}/{sp}/state_dict_used_children/save", lambda: save_children(orig), inp0)
                 ref_state = state_of(orig)
                 for mech in MECHS:
+                    if mech == "state_dict_used_children" and not CHILD_LEVEL_LOADS:
+                        # NOT held against the code: the property speaks of saving / loading THE MODEL's state_dict; loading each child's
+                        # state_dict separately leaves the parent's prediction caches alone by construction of torch's protocol
+                        # (_load_from_state_dict clears the loaded module and its descendants).  The first version of this sweep counted it
+                        # (over-demand, see DESIGN.md 10.4); set CHILD_LEVEL_LOADS = True to see those comparisons.
+                        continue
                     if tier == "quick" and mech in ("state_dict_used_holder", "state_dict_used_children") and sp != "predicted":
                         continue
                     if tier == "quick" and mech == "state_dict_used_children" and spec.name not in CHILDREN_QUICK:
